@@ -15,6 +15,24 @@ import (
 
 const maxVCBytes = 1 << 20
 
+// relaxText drops every quantified assertion (used only to find candidate
+// counterexamples, which are then replayed on the real code).
+func relaxText(s string) string {
+	var b strings.Builder
+	for _, sexp := range topLevelSexps(s) {
+		if strings.HasPrefix(sexp, "(assert") && strings.Contains(sexp, "(forall") {
+			continue
+		}
+		if strings.HasPrefix(sexp, "(define-fun str_wf") {
+			b.WriteString("(define-fun str_wf ((s Str)) Bool (and (>= (slen s) 0) (<= (slen s) 4611686018427387903)))\n")
+			continue
+		}
+		b.WriteString(sexp)
+		b.WriteByte('\n')
+	}
+	return b.String()
+}
+
 // smtText renders the query for obligation o of vc.
 func (vc *VC) smtText(o *Obligation) string {
 	var b strings.Builder
@@ -234,6 +252,31 @@ func solveAll(vcs []*VC, obls []*Obligation, vcOf map[*Obligation]*VC, tier stri
 			}
 			rs := discharge(o, file, to, tier == "thorough" && !o.Canary)
 			summarize(o, rs)
+			if !o.Canary && o.Result != "unsat" && o.Result != "sat" && len(o.ReplayQ) > 0 {
+				// look for a candidate counterexample without the quantified axioms
+				rfile := filepath.Join(scratch, fmt.Sprintf("o%04d_relaxed.smt2", i))
+				rt := relaxText(text)
+				// prefer short strings and small numbers in the candidate
+				var small []string
+				for _, q := range o.ReplayQ {
+					if strings.HasPrefix(q, "(slen ") {
+						small = append(small, fmt.Sprintf("(assert (<= %s 24))", q))
+					}
+				}
+				bounded := strings.Replace(rt, "(check-sat)", strings.Join(small, "\n")+"\n(check-sat)", 1)
+				if os.WriteFile(rfile, []byte(bounded), 0644) == nil {
+					r := runSolver(context.Background(), solvers[0], rfile, 5*time.Second)
+					if r.result != "sat" && len(small) > 0 && os.WriteFile(rfile, []byte(rt), 0644) == nil {
+						r = runSolver(context.Background(), solvers[0], rfile, 5*time.Second)
+					}
+					if r.result == "sat" {
+						if m := parseModel(r.output, o.ReplayQ); len(m) > 0 {
+							o.Model = m
+							o.Output += "\ncandidate model from the relaxed query (quantified axioms dropped), to be confirmed by replay"
+						}
+					}
+				}
+			}
 		}(i, o)
 	}
 	wg.Wait()
